@@ -529,6 +529,48 @@ def analyse(facts, cls, methods=None, record=None):
                         violations.append((f, es[i][2].get("l") or f.get("line"), D,
                                            "%s reads %s after %s changed and before %s is recomputed" % (f["qn"].split("::")[-1], D, es[last_s][1], D)))
                         break
+    # A member every store of which (outside constructors) sits behind a test of that very member is a *validated cache*:
+    # it is allowed to be out of date between refreshes, its users call the refresh first (caches.py and the rules that read it
+    # - R15.1, R13.4 - own its obligations).  It is not a derived member in the sense of this module.
+    store_guards = {}
+    for D in list(derived):
+        guards = store_guards.setdefault(D, [])
+        for f in methods:
+            if f.get("ctor"):
+                continue
+            env_ = ir.Env(f["body"])
+            for st, g, loops in ir.guarded_statements(f["body"], env_):
+                if st.get("k") in ("IfCond", "LoopHead", "SwitchHead"):
+                    continue
+                u_ = unwrap(st)
+                hit = False
+                if isinstance(u_, dict) and u_.get("k") in ("Bin", "OpCall") and u_.get("op") == "=":
+                    l_ = u_.get("lhs") if u_["k"] == "Bin" else (u_.get("args") or [None])[0]
+                    hit = _member_path(l_) == ("this", D) if l_ is not None else False
+                elif isinstance(u_, dict) and u_.get("k") == "MCall" and callee_name(u_) == "swap":
+                    hit = _member_path(u_.get("recv")) == ("this", D) or any(_member_path(a_) == ("this", D) for a_ in u_.get("args", []))
+                elif isinstance(u_, dict) and u_.get("k") == "Call" and callee_name(u_) == "swap":
+                    hit = any(_member_path(a_) == ("this", D) for a_ in u_.get("args", []))
+                if hit:
+                    guards.append((f["key"], g))
+
+    def mentions(g_, m_):
+        return ("this.%s" % m_) in repr(g_) or ("'this', '%s'" % m_) in repr(g_)
+    cached = set(D for D, gs_ in store_guards.items() if gs_ and all(mentions(g_, D) for _k, g_ in gs_))
+    changed = True
+    while changed:
+        changed = False
+        for D, gs_ in store_guards.items():
+            if D in cached or not gs_:
+                continue
+            # committed together with a member whose test guards the commit (`m_final.swap(a); m_part.swap(b);` under one test)
+            if all(mentions(g_, D) or any(C in cached and (k_, g_) in store_guards[C] for C in cached if mentions(g_, C)) for k_, g_ in gs_):
+                cached.add(D)
+                changed = True
+    for D in cached:
+        del derived[D]
+        violations = [v_ for v_ in violations if v_[2] != D]
+        undecided.pop(D, None)
     return {"derived": derived, "violations": violations, "undecided": undecided}
 
 
